@@ -848,6 +848,10 @@ func (gqm *GroupQuotaManager) MigratePod(pod *v1.Pod, out, in string) {
 	}
 	gqm.updatePodCacheNoLock(out, pod, false)
 
+	if inQuotaInfo := gqm.getQuotaInfoByNameNoLock(in); inQuotaInfo != nil && inQuotaInfo.IsPodExist(pod) {
+		// a pod event already filed the pod under the new quota, adding it again would count it twice
+		return
+	}
 	gqm.updatePodCacheNoLock(in, pod, true)
 	gqm.updatePodIsAssignedNoLock(in, pod, isAssigned)
 	gqm.updatePodRequestNoLock(in, nil, pod)
